@@ -226,9 +226,6 @@ R15_6_REQ = {
 R15_6_NAN = {
     'bitrate_av_damp': 'NaN damping: slewlimit=15./NaN is NaN, both clamps of the slew compare false and leave it as rint(choice-avgfloat) '
                        'scaled, so avgfloat moves to within 0.5 of choice in [0,14]; choice stays an index of packetblob[15]',
-    'bitrate_reservoir_bias': 'NaN bias: desired_fill=(long)(bits*NaN) is an out-of-range conversion (undefined in ISO C; LONG_MIN on '
-                              'x86-64); it is only compared with fill levels, never used as an index or size (reported by an independent '
-                              'agent under UBSan as signed-overflow reports in bitrate.c, no memory error)',
     'impulse_noisetune': 'NaN noise tune: added to the noise bias tables (floats); no index or size derives from it',
 }
 
@@ -239,6 +236,57 @@ R15_6_NAN_MUST = {
                    'are not powers of two (the 5.1 templates) the converted NaN stays INT_MIN and the encoder calls memset with a '
                    'negative size (findings/replay_encode_setup_misuse.c 2 6)',
 }
+
+
+# fields whose caller-supplied value must be refused when it is a NaN *before* it is stored (the request validates its argument,
+# then copies it): the edge that leads on to the store is one only a number can take
+R15_6_NAN_PRE = {
+    'bitrate_reservoir_bias': 'vorbis_bitrate_init converts reservoir_bits*bias to the integer fill level of the reservoir; (long)NaN is '
+                              'LONG_MIN on x86-64 and vorbis_bitrate_addblock then pads the first packet with about 2^60 zero bytes '
+                              '(findings/replay_nan_reservoir_bias.c: the encoder spins and eats memory)',
+}
+
+
+def _nan_reaches_store(F, store):
+    """can the source expression of `store` (a member of the caller's argument) still be a NaN when the store is evaluated?
+    -> True when a path from the function entry reaches the store without taking an edge of an ordered comparison on that
+    expression that only a number can take"""
+    src = F.s(F.strip_casts(F.ex[store]['c'][1]))
+
+    def cmp_edge(cond):
+        nd = F.ex[F.strip_casts(cond)]
+        neg = False
+        while nd['k'] == 'un' and nd['op'] == '!':
+            neg = not neg
+            nd = F.ex[F.strip_casts(nd['c'][0])]
+        if nd['k'] == 'bin' and nd['op'] in ('<', '<=', '>', '>=', '=='):
+            if src in (F.s(F.strip_casts(nd['c'][0])), F.s(F.strip_casts(nd['c'][1]))):
+                return not neg
+        if nd['k'] == 'bin' and nd['op'] == '!=':
+            if src in (F.s(F.strip_casts(nd['c'][0])), F.s(F.strip_casts(nd['c'][1]))):
+                return neg
+        return None
+    target = F.pos[store][0]
+    seen = set()
+    st = [F.entry]
+    while st:
+        b = st.pop()
+        if b in seen:
+            continue
+        seen.add(b)
+        if b == target:
+            return True
+        blk = F.blocks[b]
+        t = blk.get('term') or {}
+        c = t.get('cond')
+        pol = cmp_edge(c) if c is not None and len(blk['succs']) == 2 and t.get('kind') != 'switch' else None
+        for si, s_ in enumerate(blk['succs']):
+            if s_ is None:
+                continue
+            if pol is not None and (si == 0) == pol:
+                continue            # only a number takes this edge: beyond it the value is clean
+            st.append(s_)
+    return False
 
 
 def _nan_free_at_returns(F, store, fld):
@@ -339,6 +387,12 @@ def r15_6(chk, P):
         chk.ob('R15.6', F.name, f'store:{fld}#{i}', ok, F.where(e), how)
         if fld in R15_6_NAN and i == 0:
             chk.assumed('R15.6', F.name, f'nan:{fld}', F.where(e), R15_6_NAN[fld])
+        if fld in R15_6_NAN_PRE:
+            dirty = _nan_reaches_store(F, e)
+            chk.ob('R15.6', F.name, f'nan-refused-before-store:{fld}#{i}', not dirty, F.where(e),
+                   'every path to the store takes an edge of an ordered comparison on the argument that only a number can take' if not dirty
+                   else f'a NaN in `{F.s(F.ex[e]["c"][1])}` reaches the store: `x < lo` and `x > hi` are both false for a NaN, so the '
+                        f'range tests let it pass.  {R15_6_NAN_PRE[fld]}')
         if fld in R15_6_NAN_MUST and common.const_val(F, F.ex[e]['c'][1]) is None and F.ex[F.strip_casts(F.ex[e]['c'][1])]['k'] != 'flt':
             badr = _nan_free_at_returns(F, e, fld)
             chk.ob('R15.6', F.name, f'nan-rejected:{fld}#{i}', not badr, F.where(e),
